@@ -19,6 +19,7 @@
 -/
 import AdaptixModel.Morph.Load
 import AdaptixProofs.Lemmas.MorphStrictOrigins
+import AdaptixProofs.Lemmas.MorphTerminates
 
 namespace Adaptix.Morph.C07
 
@@ -55,6 +56,19 @@ theorem lax_reject_strict_reject (W : World) (hW : LeafNarrowing W) (hWl : World
   | true =>
     have := strict_narrowA_load W hW hWl m n T d hT hs
     rw [h] at this; cases this
+
+/-- **`strict_sub_lax_accept`, total form.** The termination hypothesis of `strict_sub_lax_accept`
+    is not a restriction: when the leaves answer (`LeavesAnswer`, true of the translated closures)
+    the lax run terminates for every sufficiently large fuel (`load_terminates`), so: a datum
+    accepted strictly (at some fuel) is accepted laxly at EVERY fuel from some `N` on, unless the
+    lax run ends in a non-LoadError exception. -/
+theorem strict_sub_lax_accept_total (W : World) (hW : LeafNarrowing W) (hA : LeavesAnswer W)
+    (hWl : WorldNodes W litNodeFlat) (m : DebugTrail) (n : Nat) (T : Ty) (d v : Val)
+    (hT : T.litFlat = true) (h : load W ⟨m, true⟩ n T d = .ok v) :
+    ∃ N, ∀ n', N ≤ n' → (load W ⟨m, false⟩ n' T d).isEscape = false →
+      ∃ v', load W ⟨m, false⟩ n' T d = .ok v' := by
+  obtain ⟨N, hN⟩ := load_terminates W hA ⟨m, false⟩ T d
+  exact ⟨N, fun n' hn' hesc => strict_sub_lax_accept W hW hWl m n n' T d v hT h (hN n' hn') hesc⟩
 
 /-! ## equal values unless union cases overlap laxly -/
 
@@ -306,6 +320,106 @@ example : load Wid ⟨.disable, true⟩ 1 (.literal [vdup, .int 1]) ddup = .ok d
 example : load Wid ⟨.disable, false⟩ 1 (.literal [vdup, .int 1]) ddup =
     .err (LErr.leaf "BadVariantLoadError" ddup) := by
   simp [load, loadLiteral, vdup, ddup, Val.memOf, Val.pyEq, Val.dictSub, Val.hasKV]
+
+/-! ### a world whose strict leaves are genuinely narrower, with a `Union` in play
+
+  `W₀` above ignores the coercion mode and its only class is union-free; `W₂` has a strict `int`
+  leaf that refuses `bool` (the lax one converts it), two classes, and the type under test contains
+  a general `Union` — all hypotheses of `strict_sub_lax_value` (incl. `NoLaxOverlap`) hold together. -/
+
+def W₂ : World :=
+  { classes := fun cls =>
+      if cls = "P" then some [⟨"xs", .iter .list true (.union [.scalar "int", .scalar "str"] ["int", "str"]), true, .none⟩,
+                              ⟨"n", .scalar "int", false, .int 0⟩]
+      else if cls = "Q" then some [⟨"p", .model "P", true, .none⟩,
+                                   ⟨"tag", .literal [.str "a", .str "b"], true, .none⟩]
+      else none
+    scalarLoad := fun strict name d =>
+      if name = "int" then
+        match d with
+        | .int _ => .ok d
+        | .bool b => if strict then .err (LErr.leaf "TypeLoadError" d) else .ok (.int (if b then 1 else 0))
+        | _ => .err (LErr.leaf "TypeLoadError" d)
+      else if name = "str" then
+        match d with
+        | .str _ => .ok d
+        | _ => .err (LErr.leaf "TypeLoadError" d)
+      else .err (LErr.leaf "TypeLoadError" d)
+    scalarDump := fun _ d => .ok d }
+
+theorem W₂_narrowing : LeafNarrowing W₂ := by
+  intro name d v h
+  simp only [W₂] at h ⊢
+  by_cases h1 : name = "int"
+  · simp only [h1, if_true] at h ⊢
+    cases d <;> simp_all
+  · by_cases h2 : name = "str"
+    · simp only [h2, if_true] at h ⊢
+      exact h
+    · simp only [h1, h2, if_false] at h
+      cases h
+
+theorem W₂_answers : LeavesAnswer W₂ := by
+  intro s name d
+  simp only [W₂]
+  (repeat' split) <;> simp
+
+theorem W₂_litFlat : WorldNodes W₂ litNodeFlat := by
+  intro cls fields h f hf
+  simp only [W₂] at h
+  split at h
+  · cases h; simp at hf; rcases hf with rfl | rfl <;> rfl
+  · split at h
+    · cases h; simp at hf; rcases hf with rfl | rfl <;> rfl
+    · cases h
+
+/-- the strict leaf is strictly narrower: `True` is refused strictly, converted laxly -/
+example : W₂.scalarLoad true "int" (.bool true) = .err (LErr.leaf "TypeLoadError" (.bool true)) ∧
+    W₂.scalarLoad false "int" (.bool true) = .ok (.int 1) := ⟨rfl, rfl⟩
+
+def Tu : Ty := .iter .list true (.union [.scalar "int", .scalar "str"] ["int", "str"])
+def du : Val := .list [.int 1, .str "a"]
+
+theorem Tu_strict : load W₂ ⟨.all, true⟩ 3 Tu du = .ok (.list [.int 1, .str "a"]) := by rfl
+
+theorem Tu_noOverlap : NoLaxOverlap W₂ .all 3 Tu du := by
+  intro xs hxs x hx
+  cases hxs
+  intro pre c post hdec hpre hc
+  simp at hx
+  rcases pre with _ | ⟨p1, _ | ⟨p2, pre⟩⟩
+  · simp at hdec
+    obtain ⟨rfl, rfl⟩ := hdec
+    exact ⟨by simp, trivial⟩
+  · simp at hdec
+    obtain ⟨rfl, rfl, rfl⟩ := hdec
+    refine ⟨?_, trivial⟩
+    intro p hp
+    simp at hp
+    subst hp
+    rcases hx with rfl | rfl
+    · have := hpre (.scalar "int") (by simp)
+      exact absurd this (by decide)
+    · rfl
+  · simp at hdec
+
+/-- `strict_sub_lax_value` with a Union, all hypotheses discharged -/
+example : ∀ n', 3 ≤ n' → load W₂ ⟨.all, false⟩ n' Tu du = .ok (.list [.int 1, .str "a"]) :=
+  strict_sub_lax_value W₂ W₂_narrowing W₂_litFlat .all 3 Tu du _ rfl Tu_noOverlap Tu_strict
+
+/-- `strict_sub_lax_accept_total`, all hypotheses discharged -/
+example : ∃ N, ∀ n', N ≤ n' → (load W₂ ⟨.all, false⟩ n' Tu du).isEscape = false →
+    ∃ v', load W₂ ⟨.all, false⟩ n' Tu du = .ok v' :=
+  strict_sub_lax_accept_total W₂ W₂_narrowing W₂_answers W₂_litFlat .all 3 Tu du _ rfl Tu_strict
+
+/-- `lax_reject_strict_reject` on a run where the premise holds: `[True, []]` is rejected laxly
+    (the list element fits neither case), hence not accepted strictly -/
+example : (load W₂ ⟨.first, true⟩ 3 Tu (.list [.bool true, .list []])).isOk = false :=
+  lax_reject_strict_reject W₂ W₂_narrowing W₂_litFlat .first 3 Tu _ rfl (by rfl)
+
+/-- … while `[True]` shows the inclusion is strict: refused strictly, accepted laxly -/
+example : (load W₂ ⟨.first, true⟩ 3 Tu (.list [.bool true])).isErr = true ∧
+    load W₂ ⟨.first, false⟩ 3 Tu (.list [.bool true]) = .ok (.list [.int 1]) := ⟨rfl, rfl⟩
 
 end examples
 
